@@ -338,7 +338,10 @@ func ChanBuffered(ch interface{}) int { return reflect.ValueOf(ch).Len() }
 func CancelWhenIdle() context.Context {
 	ctx, cancel := context.WithCancel(context.Background())
 	go func() {
-		for atomic.LoadInt32(&pendingOffers) > 0 {
+		// a loop that is parked for good with offers outstanding is idle too (symbolically: nothing deliverable):
+		// after 3 s without the offers being taken the context is cancelled anyway
+		start := time.Now()
+		for atomic.LoadInt32(&pendingOffers) > 0 && time.Since(start) < 3*time.Second {
 			time.Sleep(time.Millisecond)
 		}
 		time.Sleep(50 * time.Millisecond)
